@@ -26,9 +26,12 @@ Definition ZIP_LOCAL : list N := [80; 75; 3; 4].
 Definition ENCRYPTED_PACKAGE : list N :=
   [69;110;99;114;121;112;116;101;100;80;97;99;107;97;103;101].
 
-(* Cfb::has_directory over the directory array *)
+(* Cfb::has_directory over the directory array: since the fix of audit finding G8 (names are
+   unique per storage only) an entry of the ROOT storage, found by following the child / sibling
+   ids from the root entry (Cfb.find_entry); a directory whose root entry links to no child is
+   scanned as a flat array, as before *)
 Definition has_directory (dirs : list dirent) (name : list N) : bool :=
-  existsb (fun d => list_eqb (d_name d) name) dirs.
+  match find_entry dirs [name] with Some _ => true | None => false end.
 
 (* check_for_password_protected given the outcome of Cfb::new as its directory array: any Err of
    Cfb::new is swallowed by `if let Ok(..)` *)
